@@ -109,6 +109,9 @@ func runAcc(c accCase) harness.Result {
 	if count <= 3 {
 		labels = append(labels, "window<=3")
 	}
+	if (a.Kind == "String" || a.Kind == "StringWithByteOrder") && a.Addr >= c.Start && 2*(a.Addr-c.Start) < len(c.Payload) && hostile.StartsWithTextToken(c.Payload[2*(a.Addr-c.Start):]) {
+		labels = append(labels, "string-starts-with-text-token")
+	}
 	if !inside {
 		if gerr == nil {
 			return harness.Fail("%s: registers not all inside the window but a value was returned: %v", desc, got)
